@@ -7,6 +7,7 @@ import (
 	"io"
 	"runtime"
 	"testing"
+	"time"
 
 	"p9verif/evid"
 	"p9verif/memfs"
@@ -323,13 +324,132 @@ func genIOCase(rt *rapid.T) ioCase {
 func init() {
 	replayRegistrars = append(replayRegistrars, func() {
 		registerReplay("C11/io", func(c ioCase) *fail { return runIOCase(c, nil) })
+		registerReplay("C11/concurrent-reads", runConcReadCase)
 	})
+}
+
+// concReadCase: two goroutines read two files through one client at the same
+// time, after reads that ran into the end of a file; each ReadAt must fill its
+// buffer with the bytes of its own file ("behaves as one operation on the
+// remote file"), whatever the other one does meanwhile.
+type concReadCase struct {
+	EOFReads int    `json:"eof_reads"` // reads that reach the end of the file beforehand (the backend returns data together with io.EOF, or none)
+	SizeA    int    `json:"size_a"`
+	SizeB    int    `json:"size_b"`
+	Msize    uint32 `json:"msize"`
+	After    bool   `json:"hold_after"` // hold the first read after the backend has filled its buffer (else on entry)
+}
+
+func runConcReadCase(c concReadCase) *fail {
+	fs := memfs.New(memfs.Options{NativeWalkGetAttr: true, TailEOF: true})
+	fa, _ := fs.Tree.Create(fs.Tree.Root, "a", 0o644, 0, 0)
+	fb, _ := fs.Tree.Create(fs.Tree.Root, "b", 0o644, 0, 0)
+	contentA, contentB := bytes.Repeat([]byte{0xA1, 0xA2, 0xA3}, 4000), bytes.Repeat([]byte{0xB4, 0xB5}, 6000)
+	fa.WriteAt(contentA, 0)
+	fb.WriteAt(contentB, 0)
+	cl, closeFn, err := dialPipe(p9.NewServer(fs), p9.WithMessageSize(c.Msize))
+	if err != nil {
+		return failf("harness-dial", "HARNESS-ERROR %v", err)
+	}
+	defer closeFn()
+	root, err := cl.Attach("")
+	if err != nil {
+		return failf("harness-attach", "HARNESS-ERROR %v", err)
+	}
+	defer root.Close()
+	open := func(name string) (p9.File, int, *fail) {
+		before := fs.Seq()
+		_, f, err := root.Walk([]string{name})
+		if err != nil {
+			return nil, 0, failf("harness-walk", "HARNESS-ERROR %v", err)
+		}
+		if _, _, err := f.Open(p9.ReadOnly); err != nil {
+			return nil, 0, failf("harness-open", "HARNESS-ERROR %v", err)
+		}
+		hid := 0
+		for _, cl := range fs.LogSince(before) {
+			if cl.Op == "Open" {
+				hid = cl.Handle
+			}
+		}
+		return f, hid, nil
+	}
+	a, hA, f := open("a")
+	if f != nil {
+		return f
+	}
+	defer a.Close()
+	b, _, f := open("b")
+	if f != nil {
+		return f
+	}
+	defer b.Close()
+	desc := fmt.Sprintf("%+v", c)
+	for i := 0; i < c.EOFReads; i++ {
+		buf := make([]byte, 300)
+		off := len(contentA) - 100 - i
+		if i%2 == 1 {
+			off = len(contentA) + i // nothing to read at all
+		}
+		n, _ := a.ReadAt(buf, int64(off))
+		if want := contentA[min(off, len(contentA)):]; !bytes.Equal(buf[:n], want[:min(len(want), n)]) {
+			return failf("read-data-wrong:tail", "tail read at %d returned bytes that are not the file's (%s)", off, desc)
+		}
+	}
+	gate := memfs.NewGate(func(cl *memfs.Call) bool { return cl.Op == "ReadAt" && cl.Handle == hA })
+	gate.After = c.After
+	fs.AddGate(gate)
+	defer gate.Release()
+	bufA := make([]byte, c.SizeA)
+	type res struct {
+		n   int
+		err error
+	}
+	doneA := make(chan res, 1)
+	go func() {
+		n, err := a.ReadAt(bufA, 0)
+		doneA <- res{n, err}
+	}()
+	select {
+	case <-gate.Entered:
+	case <-time.After(20 * time.Second):
+		return failf("harness-gate", "HARNESS-ERROR the first read never reached the backend (%s)", desc)
+	}
+	for k := 0; k < 3; k++ {
+		bufB := make([]byte, c.SizeB)
+		n, err := b.ReadAt(bufB, int64(k*10))
+		want := contentB[k*10 : min(k*10+c.SizeB, len(contentB))]
+		if (err != nil && err != io.EOF) || !bytes.Equal(bufB[:n], want) {
+			return failf("read-data-wrong:concurrent", "a ReadAt of file b (%d bytes at %d) issued while a ReadAt of file a was in progress returned n=%d err=%v and bytes %x…, the file holds %x… (%s)", c.SizeB, k*10, n, err, bufB[:min(n, 12)], want[:min(len(want), 12)], desc)
+		}
+	}
+	fs.ClearGates()
+	gate.Release()
+	var ra res
+	select {
+	case ra = <-doneA:
+	case <-time.After(20 * time.Second):
+		return failf("read-hangs:concurrent", "the first ReadAt did not return (%s)", desc)
+	}
+	want := contentA[:min(c.SizeA, len(contentA))]
+	if (ra.err != nil && ra.err != io.EOF) || !bytes.Equal(bufA[:ra.n], want) {
+		return failf("read-data-wrong:concurrent", "the ReadAt of file a (%d bytes) that was in progress while file b was read returned n=%d err=%v and bytes %x…, the file holds %x… (%s)", c.SizeA, ra.n, ra.err, bufA[:min(ra.n, 12)], want[:min(len(want), 12)], desc)
+	}
+	return nil
 }
 
 func TestC11(t *testing.T) {
 	h := begin(t, "C11")
 	defer h.Finish()
 	env := h.Env
+	rapidCases(h, "concurrent-reads", env.PerShard(env.Pick(400, 20000)), func(rt *rapid.T) concReadCase {
+		return concReadCase{EOFReads: rapid.IntRange(0, 4).Draw(rt, "eof"), SizeA: rapid.SampledFrom([]int{1, 100, 3000, 5000, 12000}).Draw(rt, "sa"),
+			SizeB: rapid.SampledFrom([]int{1, 100, 3000, 5000}).Draw(rt, "sb"), Msize: rapid.SampledFrom([]uint32{4096, 8192, 65536}).Draw(rt, "msize"),
+			After: rapid.Bool().Draw(rt, "after")}
+	}, func(c concReadCase) *fail {
+		h.Case(evid.HashJSON(c), c.EOFReads > 0, "concurrent-reads")
+		return runConcReadCase(c)
+	})
 	rapidCases(h, "io", env.PerShard(env.Pick(12000, 1000000)), genIOCase, func(c ioCase) *fail {
 		st := &ioStats{}
 		f := runIOCase(c, st)
